@@ -22,7 +22,7 @@ from . import common
 
 ID = 'C07'
 LEVEL = 'exploration'
-RUNS = {'quick': 4000, 'thorough': 100000}
+RUNS = {'quick': 12000, 'thorough': 100000}
 SIM_TIME_UNIT = 'samples / dense time units'
 RULE = ('seeded generation of (iff/xor-free sorted specification, monitor kind, data); for up to 4 instants with finite non-zero '
         'robustness the noise fault is injected 6 + 2*(#predicates) times (adversarial toward each threshold, all up, all down, '
@@ -60,6 +60,10 @@ def gen(rng, tier):
                                             strict_sorts=True, pred_var_const=pvc, p_reuse=rng.choice([0.0, 0.2])))
         if sg.vars_of(ast) and ast[0] not in ('var', 'const') and ast[0] not in sg.TERM_UN + sg.TERM_BIN and not (mode == 'on' and common.f08_blind(ast)):
             break
+    near = rng.random() < 0.15
+    if near:
+        # two requirements on the same quantity whose thresholds differ in a late decimal (samples are moved between them below)
+        ast = sg.add_near_duplicate(rng, ast)
     if (not dense) and mode == 'on' and rng.random() < 0.3:
         # directed: a pastified bounded-future operator over variable-vs-constant predicates (magnitude errors of the
         # delayed operators only show under the noise clause)
@@ -106,6 +110,8 @@ def gen(rng, tier):
     else:
         sc['n'] = rng.randint(1, 8) + (int(sg.horizon(ast)) + int(common.warmup_extra(ast)) if pastify else 0)
         sc['data'] = world.gen_trace(rng, vars_, sc['n'])
+        if near or rng.random() < 0.1:
+            common.nudge_to_thresholds(rng, ast, sc['data'])
     return sc
 
 
